@@ -16,6 +16,7 @@ MC_KChoices == {2}
 MC_MaxExtra == 1
 MC_RandChoices == {1}
 MC_Msg == <<104,105>>
+MC_SweepSigners == FALSE
 MC_EMIT == TRUE
 
 ====
